@@ -125,6 +125,15 @@ BAD_INSTANCES = [
     '<INSTANCE CLASSNAME="C"><PROPERTY NAME="p" TYPE="datetime"><VALUE>yesterday</VALUE></PROPERTY></INSTANCE>',
     '<INSTANCE CLASSNAME="C"><PROPERTY NAME="p" TYPE="string" EmbeddedObject="instance"><VALUE>&lt;INSTANCE</VALUE></PROPERTY></INSTANCE>',
     '<INSTANCE CLASSNAME="C"><PROPERTY NAME="p" TYPE="string" EmbeddedObject="instance"><VALUE>&lt;FOO/&gt;</VALUE></PROPERTY></INSTANCE>',
+    # EmbeddedObject / EMBEDDEDOBJECT on values that are not strings (parse_embeddedObject must refuse them as a parse error)
+    '<INSTANCE CLASSNAME="C"><PROPERTY NAME="p" TYPE="uint8" EmbeddedObject="instance"><VALUE>5</VALUE></PROPERTY></INSTANCE>',
+    '<INSTANCE CLASSNAME="C"><PROPERTY NAME="p" TYPE="boolean" EMBEDDEDOBJECT="object"><VALUE>true</VALUE></PROPERTY></INSTANCE>',
+    '<INSTANCE CLASSNAME="C"><PROPERTY NAME="p" TYPE="datetime" EmbeddedObject="object"><VALUE>20240101000000.000000+000</VALUE></PROPERTY></INSTANCE>',
+    '<INSTANCE CLASSNAME="C"><PROPERTY NAME="p" TYPE="real32" EmbeddedObject="instance"><VALUE>1.5</VALUE></PROPERTY></INSTANCE>',
+    '<INSTANCE CLASSNAME="C"><PROPERTY.ARRAY NAME="p" TYPE="uint16" EmbeddedObject="instance"><VALUE.ARRAY><VALUE>1</VALUE><VALUE>2</VALUE></VALUE.ARRAY></PROPERTY.ARRAY></INSTANCE>',
+    '<INSTANCE CLASSNAME="C"><PROPERTY.ARRAY NAME="p" TYPE="boolean" EMBEDDEDOBJECT="instance"><VALUE.ARRAY><VALUE>false</VALUE></VALUE.ARRAY></PROPERTY.ARRAY></INSTANCE>',
+    '<INSTANCE CLASSNAME="C"><PROPERTY NAME="p" TYPE="char16" EmbeddedObject="instance"><VALUE>x</VALUE></PROPERTY></INSTANCE>',
+    '<INSTANCE CLASSNAME="C"><PROPERTY NAME="p" TYPE="string" EmbeddedObject="bogus"><VALUE>x</VALUE></PROPERTY></INSTANCE>',
     '<INSTANCE CLASSNAME="C">junk</INSTANCE>',
     '<INSTANCE CLASSNAME="C"><FOO/></INSTANCE>',
     '<INSTANCE CLASSNAME="C"><PROPERTY NAME="p" TYPE="real32"><VALUE>1e999x</VALUE></PROPERTY></INSTANCE>',
@@ -192,7 +201,8 @@ def mutate_tree(rng, tree):
     """one structural mutation of a valid envelope -> intent"""
     k = rng.choice(['cimver', 'dtdver', 'protover', 'dropattr', 'addattr', 'rename', 'decl', 'dupchild', 'nochild',
                     'text', 'method', 'noparams', 'pname', 'twoparams', 'dupparams', 'noinstance', 'twoinstances',
-                    'badinstance', 'msgid', 'foreignreq', 'badchar'])
+                    'badinstance', 'badinstance', 'badinstance', 'badinstance',     # x4: every BAD_INSTANCES entry ~10 times per quick run
+                    'msgid', 'foreignreq', 'badchar'])
     cim = tree
     msg = path(tree, ['MESSAGE'])
     req = path(tree, ['MESSAGE', 'SIMPLEEXPREQ'])
@@ -798,6 +808,7 @@ def run_session(case, async_stop=False):
         if ev['method'] == 'POST':
             k = expected_read(hdrs, len(body))
             an = analyse(body[:k if k is not None else 0])
+            an['read'] = k is not None      # the handler reads exactly these octets and hands them to the parser
             mreq.update({'k': k if k is not None else 0, 'tree': an['tree'], 'xmlexc': an['xmlexc'],
                          'msg': common.cps(an['msg']),
                          'foreign': an['foreign'], 'exctext': common.cps(an['exctext']), 'codec': an['codec'],
